@@ -339,7 +339,12 @@ fn partfile_cases(pf: &PartFile, rng: &mut Rng, out: &mut Vec<Case>) {
 }
 
 /// RAM start: a data-segment label must equal the declared start address
-fn check_ram_start(ctx: &Ctx, dev: &str, prefix: &str, include_dir: Option<&PathBuf>, want: u32, from: &'static str) {
+fn check_ram_start(ctx: &Ctx, dev: &str, prefix: &str, include_dir: Option<&PathBuf>, want: u32, ram_size: u32, from: &'static str) {
+    if ram_size < 2 {
+        // parts without RAM cannot hold the two probe bytes; the capacity cases cover them
+        ctx.count("ram_start_probe_skipped_no_ram", 1);
+        return;
+    }
     let src = format!("{}.dseg\nfirst_var: .byte 1\nsecond_var: .byte 1\n.cseg\n.dw first_var, second_var\n", prefix);
     let out = match include_dir {
         None => fw::build_str(&src),
@@ -361,15 +366,7 @@ fn check_ram_start(ctx: &Ctx, dev: &str, prefix: &str, include_dir: Option<&Path
                 ctx.violation(format!("cap/{}/{}/ram-start", from, dev), format!("{}: first data-segment label is 0x{:x}, {} says RAM starts at 0x{:x}", dev, a, from, want), replay);
             }
         }
-        Outcome::Err(_) if want == 0 && false => {}
         other => {
-            // parts without RAM cannot hold the two probe bytes: then the capacity cases cover them
-            if let Outcome::Err(e) = other {
-                if e.contains("RAM size") {
-                    ctx.count("ram_start_probe_skipped_no_ram", 1);
-                    return;
-                }
-            }
             ctx.violation(format!("cap/{}/{}/ram-start-probe", from, dev), format!("{}: RAM start probe did not build: {:?}", dev, other.kind()), replay);
         }
     }
@@ -438,15 +435,15 @@ pub fn run(ctx: &Ctx) -> i32 {
     order.sort_by_key(|i| std::cmp::Reverse(if cases[*i].mem == "flash" { cases[*i].usage } else { 0 }));
     fw::par_for(order.len() as u64, 1, |i| check(ctx, &cases[order[i as usize]]));
     // RAM start
-    check_ram_start(ctx, "none", "", None, Device::new(0).ram_start, "table");
+    check_ram_start(ctx, "none", "", None, Device::new(0).ram_start, Device::new(0).ram_size, "table");
     for (name, dev) in &table {
-        check_ram_start(ctx, name, &format!(".device {}\n", name), None, dev.ram_start, "table");
+        check_ram_start(ctx, name, &format!(".device {}\n", name), None, dev.ram_start, dev.ram_size, "table");
     }
     for pf in &parts {
         if avra_lib::device::DEVICES.contains_key(pf.device.as_str()) {
             let (prefix, dir) = partfile_prefix(pf);
             ctx.set_add(if dir.is_some() { "part_files_assembled_via_include" } else { "part_files_not_assemblable_checked_via_device_name" }, &pf.file.file_name().unwrap().to_string_lossy());
-            check_ram_start(ctx, &pf.device, &prefix, dir.as_ref(), pf.ram_start, "partfile");
+            check_ram_start(ctx, &pf.device, &prefix, dir.as_ref(), pf.ram_start, pf.ram_size, "partfile");
         }
     }
     misc_device_cases(ctx);
@@ -513,13 +510,13 @@ pub fn replay(ctx: &Ctx, case: &Value) -> i32 {
             let table = devices::table();
             for (name, d) in &table {
                 if name == dev {
-                    check_ram_start(ctx, name, &format!(".device {}\n", name), None, d.ram_start, "table");
+                    check_ram_start(ctx, name, &format!(".device {}\n", name), None, d.ram_start, d.ram_size, "table");
                 }
             }
             for pf in devices::part_files() {
                 if pf.device == dev && avra_lib::device::DEVICES.contains_key(dev) {
                     let (prefix, dir) = partfile_prefix(&pf);
-                    check_ram_start(ctx, &pf.device, &prefix, dir.as_ref(), pf.ram_start, "partfile");
+                    check_ram_start(ctx, &pf.device, &prefix, dir.as_ref(), pf.ram_start, pf.ram_size, "partfile");
                 }
             }
             misc_device_cases(ctx);
